@@ -24,7 +24,12 @@ def forget_traceback(exc):
     carries, so a long-lived process would keep the frames (and their locals)
     of every failed evaluation alive. Call this where a raised error is caught.
     """
-    exc.__traceback__ = None
+    try:
+        exc.__traceback__ = None
+    except Exception:
+        # a host exception may refuse attribute assignment (frozen dataclass,
+        # custom __setattr__): nothing to forget then, and nothing to report
+        pass
 
 
 def from_message(message):
